@@ -3,40 +3,87 @@ import HeimdallModel.Model.CacheKey
 # C11 — what a fresh evaluation reads (hand-written from the Go code, validated by the correspondence run)
 
 For every caching mechanism: the typed sources a fresh evaluation (rendering the request, calling the remote system,
-parsing the response) depends on, named like the Go expressions the key function writes.  `a.id` stands for the whole
-prototype configuration of the mechanism instance (endpoint, payload template, subject mapping, …): rule-level overrides
-can only change what is listed separately.  Rule-level *validation* (assertions, expressions) is not listed: it is
-repeated on every cache hit (`rechecked`).
+parsing the response) depends on.  Sources are named by the Go expression the key function writes, *normalised* by the
+extractor so that renaming does not matter: `recv` is the receiver, `arg<i>` the i-th parameter of the key function, a
+local variable is replaced by the expression defining it, the parameter of a function literal is `_`.
+
+| key function | parameters |
+|---|---|
+| `remoteAuthorizer.calculateCacheKey(sub, values, payload)` | `arg0` subject, `arg1` rendered values, `arg2` rendered payload |
+| `genericContextualizer.calculateCacheKey(ctx, sub, values, payload)` | `arg0` context, `arg1` subject, `arg2` values, `arg3` payload |
+| `genericAuthenticator.calculateCacheKey(ctx, reference)` | `arg0` context, `arg1` authentication data |
+| `oauth2IntrospectionAuthenticator.calculateCacheKey(ep, templatedURL, token)` | `arg0` endpoint, `arg1` rendered url, `arg2` token |
+| `jwtAuthenticator.calculateCacheKey(ep, renderedURL, reference)` | `arg0` endpoint, `arg1` rendered url, `arg2` key id |
+| `jwtFinalizer.calculateCacheKey(ctx, sub)` | `arg0` context, `arg1` subject |
+| `httpcache.cacheKey(req)` | `arg0` the request as it is sent (after `Endpoint.CreateRequest` and `AuthenticationStrategy.Apply`) |
+| `template.New(val)` | `arg0` template text |
+
+`recv.id` stands for the whole prototype configuration of the mechanism instance (endpoint, payload template, subject
+mapping, …): rule-level overrides can only change what is listed separately.  Rule-level *validation* (assertions,
+expressions) is not listed: it is repeated on every cache hit (`rechecked`).
 -/
 namespace Heimdall.CacheKey
 
 def deps : String → List Dep
   | "genericAuthenticator" =>
-      [.bytes "a.id", .bytes "reference", .list "ctx.Request().Header(name) for a.fwdHeaders",
-       .list "ctx.Request().Cookie(name) for a.fwdCookies"]
-  | "introspection" => [.bytes "a.id", .bytes "templatedURL", .bytes "token"]
-  | "jwtAuthenticator" => [.bytes "a.id", .bytes "renderedURL", .bytes "reference"]
-  | "remoteAuthorizer" => [.bytes "a.id", .bytes "payload", .bytes "sub.Hash()", .kvs "values"]
+      [.bytes "recv.id", .bytes "arg1", .list "arg0.Request().Header(_) for recv.fwdHeaders",
+       .list "arg0.Request().Cookie(_) for recv.fwdCookies"]
+  | "introspection" => [.bytes "recv.id", .bytes "arg1", .bytes "arg2"]
+  | "jwtAuthenticator" => [.bytes "recv.id", .bytes "arg1", .bytes "arg2"]
+  | "remoteAuthorizer" => [.bytes "recv.id", .bytes "arg2", .bytes "arg0.Hash()", .kvs "arg1"]
   | "genericContextualizer" =>
-      [.bytes "h.id", .list "h.fwdHeaders", .list "ctx.Request().Header(name) for h.fwdHeaders", .list "h.fwdCookies",
-       .list "ctx.Request().Cookie(name) for h.fwdCookies", .bytes "payload", .bytes "sub.Hash()", .kvs "values"]
+      [.bytes "recv.id", .list "recv.fwdHeaders", .list "arg0.Request().Header(_) for recv.fwdHeaders",
+       .list "recv.fwdCookies", .list "arg0.Request().Cookie(_) for recv.fwdCookies", .bytes "arg3",
+       .bytes "arg1.Hash()", .kvs "arg2"]
   | "jwtFinalizer" =>
-      [.bytes "f.signer.Hash()", .bytes "f.claims.Hash() if f.claims != nil", .num "f.ttl", .bytes "sub.Hash()",
-       .bytes "json.Marshal(ctx.Outputs())"]
-  | "clientCredentialsKey" => [.bytes "c.ClientID", .bytes "c.ClientSecret", .bytes "c.TokenURL", .list "c.Scopes"]
-  | "httpCache" =>
-      [.bytes "req.URL.String()", .bytes "req.Method", .bytes "strings.TrimSpace(req.Header.Get(\"Authorization\"))"]
+      [.bytes "recv.signer.Hash()", .bytes "recv.claims.Hash() if recv.claims != nil", .num "recv.ttl",
+       .bytes "arg1.Hash()", .bytes "json.Marshal(arg0.Outputs())"]
+  | "clientCredentialsKey" =>
+      [.bytes "recv.ClientID", .bytes "recv.ClientSecret", .bytes "recv.TokenURL", .list "recv.Scopes"]
+  -- everything `Endpoint.CreateRequest` and `AuthenticationStrategy.Apply` put on the wire of a request without a
+  -- body: the url (api key `in: query`), the method, all header fields (endpoint headers rendered for the request,
+  -- forwarded headers, `Authorization`, api keys, cookies)
+  | "httpCache" => [.bytes "arg0.URL.String()", .bytes "arg0.Method", .kvs "headerFields(arg0.Header)"]
   -- nested digests: the object that is hashed
-  | "subject" => [.bytes "json.Marshal(s)"]
-  | "template" => [.bytes "val"]
-  | "jwtSigner" => [.bytes "jwk.KeyID", .bytes "jwk.Algorithm", .bytes "s.iss", .bytes "jwk.Thumbprint(crypto.SHA256)"]
-  | "endpoint" => [.bytes "e.URL", .bytes "e.Method", .kvs "e.Headers", .opt "e.AuthStrategy != nil" (.bytes "e.AuthStrategy.Hash()")]
-  | "apiKey" => [.bytes "c.In", .bytes "c.Name", .bytes "c.Value"]
-  | "basicAuth" => [.bytes "c.User", .bytes "c.Password"]
+  | "subject" => [.bytes "json.Marshal(recv)"]
+  | "template" => [.bytes "arg0"]
+  | "jwtSigner" =>
+      [.bytes "recv.jwk.KeyID", .bytes "recv.jwk.Algorithm", .bytes "recv.iss", .bytes "recv.jwk.Thumbprint(crypto.SHA256)"]
+  | "endpoint" =>
+      [.bytes "recv.URL", .bytes "recv.Method", .kvs "recv.Headers",
+       .opt "recv.AuthStrategy != nil" (.bytes "recv.AuthStrategy.Hash()")]
+  | "apiKey" => [.bytes "recv.In", .bytes "recv.Name", .bytes "recv.Value"]
+  | "basicAuth" => [.bytes "recv.User", .bytes "recv.Password"]
   | "httpMessageSignatures" =>
-      [.bytes "s.Label", .list "s.Components", .bytes "u64 *s.TTL", .bytes "s.Signer.Name", .bytes "s.Signer.KeyID"]
-  | "clientCredentialsHash" => [.bytes "c.ClientID", .bytes "c.ClientSecret", .bytes "c.TokenURL", .list "c.Scopes"]
+      [.bytes "recv.Label", .list "recv.Components", .bytes "u64 *recv.TTL", .bytes "recv.Signer.Name",
+       .bytes "recv.Signer.KeyID"]
+  | "clientCredentialsHash" =>
+      [.bytes "recv.ClientID", .bytes "recv.ClientSecret", .bytes "recv.TokenURL", .list "recv.Scopes"]
   | _ => []
+
+/-- the key functions whose result is used as key of the (shared) cache -/
+def keyUsers : List String :=
+  ["genericAuthenticator", "introspection", "jwtAuthenticator", "remoteAuthorizer", "genericContextualizer",
+   "jwtFinalizer", "clientCredentialsKey", "httpCache"]
+
+/-- the leading constant of a field list -/
+def tagOf : List Field → Option Bytes
+  | .tag b :: _ => some b
+  | _ => none
+
+theorem tagOf_some {fs : List Field} {a : Bytes} (h : tagOf fs = some a) : ∃ r, fs = .tag a :: r := by
+  cases fs with
+  | nil => simp [tagOf] at h
+  | cons f r =>
+    cases f <;> simp [tagOf] at h
+    exact ⟨r, by rw [h]⟩
+
+/-- every two different users of the cache start their keys with different constants -/
+def usersSeparated (table : List (String × List Field)) : Bool :=
+  keyUsers.all fun n => keyUsers.all fun n' => n == n' ||
+    match (table.lookup n).bind tagOf, (table.lookup n').bind tagOf with
+    | some a, some b => a != b && decide (a.length < limit) && decide (b.length < limit)
+    | _, _ => false
 
 /-- mechanisms whose rule-level validation (assertions / expressions) is not part of the key: it has to be repeated
 on **every** hit (`Validate` / `verify` → `eval` of the Go code). The extractor reports a call that is not executed on
@@ -45,14 +92,34 @@ closure) with a leading `?`, which does not count. -/
 def rechecked : List (String × String) :=
   [("introspection", "Validate"), ("remoteAuthorizer", "verify"), ("remoteAuthorizer", "eval")]
 
-/-- `a` occurs in the call sequence, and `b` occurs only after it -/
-def before (a b : String) : List String → Bool
+/-- does the extracted hit path of the mechanism repeat the rule-level validation on every hit -/
+def recheckOf (hitPath : List (String × List String)) (name : String) : Bool :=
+  let need := rechecked.filter (·.1 == name)
+  !need.isEmpty && need.all fun p => (hitPath.lookup name).any (·.contains p.2)
+
+/-- `a` occurs in the call sequence, and storing (`Set`) occurs only after it -/
+def before (a : String) : List String → Bool
   | [] => false
-  | x :: xs => if x == b then false else if x == a then xs.contains b else before a b xs
+  | x :: xs => if x == "Set" then false else if x == a then xs.contains "Set" else before a xs
 
 /-- mechanisms whose validation of the remote response does not depend on the rule and is therefore not repeated on a
-hit (validation of the fetched JWK against the trust store, assertion of the session lifespan): it has to precede storing -/
+hit (validation of the fetched JWK against the trust store, assertion of the session lifespan): it has to precede
+storing. On the miss path the extractor appends to a call (other than `Set`) the conditions reading the receiver under which it is
+executed: the session lifespan is asserted exactly if the mechanism is configured with one; any further condition
+(e.g. a flag a rule could set) does not match. -/
 def validatedBeforeStored : List (String × String) :=
-  [("jwtAuthenticator", "validateJWK"), ("genericAuthenticator", "Assert")]
+  [("jwtAuthenticator", "validateJWK"), ("genericAuthenticator", "Assert?recv.sessionLifespanConf != nil")]
+
+/-- the functions that may use the cache of the request context -/
+def knownCacheSites : List String :=
+  ["internal/httpcache/round_tripper.go:RoundTripper.cachedResponse",
+   "internal/httpcache/round_tripper.go:RoundTripper.cacheResponse",
+   "internal/rules/mechanisms/authenticators/generic_authenticator.go:genericAuthenticator.getSubjectInformation",
+   "internal/rules/mechanisms/authenticators/jwt_authenticator.go:jwtAuthenticator.getKey",
+   "internal/rules/mechanisms/authenticators/oauth2_introspection_authenticator.go:oauth2IntrospectionAuthenticator.getSubjectInformation",
+   "internal/rules/mechanisms/authorizers/remote_authorizer.go:remoteAuthorizer.Execute",
+   "internal/rules/mechanisms/contextualizers/generic_contextualizer.go:genericContextualizer.Execute",
+   "internal/rules/mechanisms/finalizers/jwt_finalizer.go:jwtFinalizer.Execute",
+   "internal/rules/oauth2/clientcredentials/clientcredentials.go:Config.Token"]
 
 end Heimdall.CacheKey
